@@ -513,6 +513,51 @@ class BoolOctPart(Part):
         return out
 
 
+class SiblingsPart(Part):
+    """peek_header + skip_value walk a run of sibling TLVs exactly (no byte beyond a value is consumed)."""
+
+    name = "siblings"
+    examples = {QUICK: 300, THOROUGH: 3000}
+
+    def strategy(self, tier: str) -> t.Any:
+        item = st.tuples(_tagspec(), st.one_of(st.binary(max_size=8), gens.sized_octets([0, 127, 128, 255, 256, 300])), st.sampled_from([0, 0, 1, 2, 4, 8]))
+        return st.lists(item, min_size=1, max_size=8)
+
+    def check(self, case: t.Any, ctx: Ctx) -> t.List[Violation]:
+        a = _lib()
+        parts = []
+        for (cls, number, constructed), content, lenk in case:
+            form = ("long", lenk) if lenk else None
+            parts.append(ber.ident_octets(cls, constructed, number) + ber.length_octets(len(content), form) + content)
+        data = b"".join(parts)
+        if len(case) >= 3:
+            ctx.nontrivial()
+        out: t.List[Violation] = []
+        try:
+            r = a.ASN1Reader(data)
+            for i, ((cls, number, constructed), content, lenk) in enumerate(case):
+                if not r:
+                    out.append(Violation("siblings:reader-empty-early", f"after {i} of {len(case)} values: {data.hex()}"))
+                    return out
+                h = r.peek_header()
+                if (int(h.tag.tag_class), int(h.tag.tag_number), h.tag.is_constructed, h.length, h.tag_length) != (
+                    cls, number, constructed, len(content), len(parts[i]) - len(content)):
+                    out.append(Violation("siblings:header", f"value {i} of {data.hex()}: {h!r}"))
+                    return out
+                if i % 2:
+                    r.skip_value(h)
+                else:
+                    got = r.read_octet_string(header=h)
+                    if got != content:
+                        out.append(Violation("siblings:content", f"value {i} of {data.hex()}: {got!r}"))
+                        return out
+            if r:
+                out.append(Violation("siblings:bytes-left", f"{r.get_remaining_data().hex()} left of {data.hex()}"))
+        except Exception as e:
+            out.append(Violation(_exc_key("siblings", e), f"{data.hex()}: {e!r}"))
+        return out
+
+
 def _selftest(tier: str, seed: int) -> None:
     # the arithmetic reference against Python's own big-int conversions, on a fixed sweep
     for v in list(range(-70000, 70000, 7)) + [2**k for k in range(0, 80)] + [-(2**k) for k in range(0, 80)]:
@@ -541,7 +586,7 @@ PROP = Property(
         "Non-trivial = negative with a low zero octet, |v| >= 2^15, padded content or >= 3 content octets, tag number "
         ">= 31, length >= 128, declared long-form length, nesting >= 2, boolean octet not in {00,FF}; distinct by value."
     ),
-    parts=[IntPart(), IntSweep(), ContentPart(), TagPart(), LengthPart(), TreePart(), BoolOctPart()],
+    parts=[IntPart(), IntSweep(), ContentPart(), TagPart(), LengthPart(), TreePart(), BoolOctPart(), SiblingsPart()],
     assumptions=[
         "UNIVERSAL tag numbers restricted to 0..36 (documented TypeTagNumber range)",
         "INTEGER content is non-empty (empty content is not BER; covered by C05)",
